@@ -38,12 +38,12 @@ import (
 	dgen "verif/harness/internal/drive/gennaro"
 	dhjky "verif/harness/internal/drive/hjky"
 	"verif/harness/internal/drive/keys"
-	"verif/harness/internal/tamper"
 	dl17 "verif/harness/internal/drive/lindell17"
 	dl17dkg "verif/harness/internal/drive/lindell17dkg"
 	dl22 "verif/harness/internal/drive/lindell22"
 	dredist "verif/harness/internal/drive/redistribute"
 	dsess "verif/harness/internal/drive/session"
+	"verif/harness/internal/tamper"
 	"verif/harness/internal/vh"
 )
 
@@ -79,6 +79,9 @@ type adapter struct {
 	noParallel   bool     // skip the parallel-session run (expensive protocols)
 	first        []string // fields whose value flips are scheduled first (small quotas)
 	thoroughOnly bool     // too expensive for the quick tier
+	// rank, when set, may give a stratum a priority prefix (sorted before everything else, in
+	// string order); "" = the default order
+	rank func(m *mutation) string
 }
 
 func normAs[M any](b []byte) []byte {
